@@ -588,7 +588,8 @@ class C01(SeqCheck):
             "bound sockets, NAT external addresses, replies to the last source seen, loopback, unbound ports, unroutable addresses; reads; draining "
             "every socket (so that nothing else arrived is checked); time steps 1 s-3 min; close; bind; Stop/Start; non-trivial = at least 3 "
             "datagrams read. Concurrent tier (1/3): wildcard sockets on every host, 1-2 flows per socket of 20-80 numbered datagrams to publicly "
-            "reachable or same-LAN sockets, all senders concurrently, then concurrent replies; non-trivial = at least 100 datagrams; distinct = "
+            "reachable or same-LAN sockets, all senders concurrently, then concurrent replies; one history per run uses up the 16384 dynamic ports of a "
+            "NAT and checks that the established flow still works (compared with the model in the thorough tier only); non-trivial = at least 100 datagrams; distinct = "
             "distinct (configuration, operations)")
     trusted = ["testing/synctest (quiescence after each operation, virtual clock for NAT lifetimes)"]
     assumptions = ["IPv4/UDP"]
@@ -599,6 +600,16 @@ class C01(SeqCheck):
 
     def model_entry_for(self, conf):
         return None if conf.split()[:1] == ["9"] else self.model_entry
+
+    def gen_args(self, tier):
+        self._tier = tier
+        return []
+
+    def harness_env(self):
+        e = SeqCheck.harness_env(self)
+        if getattr(self, "_tier", "quick") == "thorough":
+            e["C01_EXH_MODEL"] = "1"   # the NAT port exhaustion history is also compared with the model (about 90 s)
+        return e
 
     def model_postprocess(self, line, model_obs):
         # concurrent tier: no prediction; the observation is the flag word of the implementation-side oracle and must be 0
